@@ -173,4 +173,30 @@ Proof.
     rewrite combine_length, Hlr, Nat.min_id in Hsem.
     unfold ref_chain. cbn [fst snd]. rewrite Hsem. apply R_refl.
 Qed.
+(* the expression the walker builds for the rendering of a well-formed tree is the structural image of the tree *)
+Lemma flat_parse_structure (c : chain (D:=D)) (text : str) :
+  wf_chain tb c = true -> vars_in_atom vars (fst c) -> vars_in_rest vars (snd c) ->
+  make_expression tb true text (flatten c) vars =
+  Ok {| fnodes := fst (fl_chain c 0); fops := snd (fl_chain c 0);
+        fprios := prioritized_indices_flat true (snd (fl_chain c 0)) (fst (fl_chain c 0)); fvars := vars; ftext := text |}.
+Proof.
+  intros Hwf Hv0 Hvr. destruct c as [a0 rest]. cbn [fst snd] in *.
+  unfold wf_chain in Hwf. cbn [fst snd] in Hwf. apply andb_prop in Hwf. destruct Hwf as [Hw0 Hwr].
+  destruct (walk_sim tb vars Hwf_tb C (asize a0)) as [Hsa _]. destruct (walk_sim tb vars Hwf_tb C (rsize rest)) as [_ Hsr].
+  set (ts := flatten (a0, rest)).
+  assert (Hwalk : walk tb (S (length ts)) [] ts vars [] [] 0 [] = Ok (fst (fl_chain (a0, rest) 0), snd (fl_chain (a0, rest) 0))).
+  { unfold ts, flatten. cbn [fst snd]. rewrite app_length.
+    replace (S (length (flatten_atom a0) + length (flatten_rest rest))) with (length (flatten_atom a0) + (length (flatten_rest rest) + 1)) by lia.
+    rewrite (Hsa a0 (le_n _) Hw0 Hv0 0%Z [] _ [] [] [] _ (lctx_nil tb) I (Forall_nil _)).
+    destruct (flatten_atom_end a0) as (pre & t & Epre & Hend).
+    rewrite app_nil_r. rewrite Epre, rev_app_distr. cbn [rev app].
+    rewrite <- (app_nil_r (flatten_rest rest)) at 2.
+    rewrite (Hsr rest (le_n _) Hwr Hvr 0%Z t (rev pre) [] _ _ [] 1 Hend (Forall_nil _)).
+    cbn [Flat.walk]. unfold FlStruct.fl_chain. cbn [fst snd].
+    destruct (fl_atom a0 0) as [n0 o0]. destruct (fl_rest rest 0) as [nr or]. cbn [fst snd].
+    rewrite !app_nil_r, !rev_app_distr, !rev_involutive. reflexivity. }
+  destruct (fl_chain_vals (a0, rest) 0) as [_ Hshape]. unfold shape in Hshape.
+  unfold make_expression. fold ts. rewrite Hwalk. cbn [bind].
+  destruct (Nat.eqb_spec (S (length (snd (fl_chain (a0, rest) 0)))) (length (fst (fl_chain (a0, rest) 0)))) as [_|Hne]; [reflexivity|exfalso; apply Hne; lia].
+Qed.
 End Main.
